@@ -8,7 +8,7 @@ from .. import tlc
 from ..common import Report, pmap
 from ..e2e import directed
 
-FAMILY = r"^move\.(stages|displacement|shape)|^helper\.|^order\."
+FAMILY = r"^move\.(stages|displacement|shape)|^helper\.|^order\.|^run\.crashed"
 DRIVERS = {"e2e-shear": ("harness.e2e", "run_e2e", "LadimTrace", FAMILY),
            "analytic-helpers": ("harness.checks.c01", "helper_trace", "HelperTrace", FAMILY),
            "convergence-order": ("harness.checks.c01", "order_trace", "HelperTrace", FAMILY),
